@@ -188,6 +188,11 @@ const HOSTILE_PROGRAMS: &[(&str, &str)] = &[
     ("(module) @_m {\n  node n\n  attr (n) dbg_match = 3, dbg_loc = 4\n}\n", "pass\n"),
     ("attribute sh = x => k = @m\n(module) @_m { node n attr (n) sh = 1 }", "pass\n"),
     ("(module) @_a @_b @_c { node n }", "pass\n"),
+    // more captures on one pattern step than tree-sitter keeps (three): the others are reported as occurring once and have no node
+    ("(assignment left: (identifier) @_a @_b @_c @d) { node n attr (n) v = @d }", "x = 1\n"),
+    ("(identifier) @a @b @c @d @e { node n attr (n) v = [@a, @b, @c, @d, @e] }", "x = 1\n"),
+    ("(module) @_a @_b @_c @d { node n attr (n) v = @d }", "pass\n"),
+    ("(module (expression_statement) @_a @_b @_c @d @e) { node n attr (n) v = (source-text @e), w = @d }", "x\ny\n"),
     ("(pass_statement)* @_m { node n }", "pass\n"),
     ("(module) @_m { node n scan \"ab cd\" { \"\\\\b\" { attr (n) v = $0 } } }", "pass\n"),
     ("(module) @_m { node n scan \"ab\" { \"a\" { attr (n) v = $5 } } }", "pass\n"),
